@@ -59,6 +59,8 @@ type Case struct {
 	Chans []ChanCfg `json:"chans"`
 	Ops   []Op      `json:"ops"`
 	Note  string    `json:"note,omitempty"`
+	// Stray: the saved configuration also names channels this source does not have (must be ignored by PrepareRun)
+	Stray bool `json:"stray,omitempty"`
 }
 
 // DefaultTS is what PrepareRun installs for a channel without saved settings.
@@ -151,13 +153,15 @@ func Run(c Case) lib.Result {
 		F, T int64
 		C    []ChanCfg
 		O    []Op
-	}{c.Npre, c.Nsamp, c.Rate, c.F0, c.T0, c.Chans, c.Ops})}
+		S    bool
+	}{c.Npre, c.Nsamp, c.Rate, c.F0, c.T0, c.Chans, c.Ops, c.Stray})}
 	nchan := len(c.Chans)
 	if nchan == 0 || c.Rate <= 0 || 1000000000%c.Rate != 0 {
 		panic("harness: bad case")
 	}
 	period := 1000000000 / c.Rate
 	var restored []dastard.FullTriggerState
+	tags := map[string]bool{}
 	cur := make([]TS, nchan) // settings in force per channel (harness-side bookkeeping for tags)
 	for i, cc := range c.Chans {
 		cur[i] = DefaultTS
@@ -166,6 +170,11 @@ func Run(c Case) lib.Result {
 			cur[i] = *cc.Restored
 			cur[i].EMulti = false
 		}
+	}
+	if c.Stray {
+		stray := TS{Edge: true, ERising: true, ELevel: 1, Level: true, LRising: true, LLevel: 1, Auto: true}
+		restored = append(restored, dastard.FullTriggerState{ChannelIndices: []int{nchan, nchan + 3}, TriggerState: stray.goState()})
+		tags["saved-settings-for-absent-channels"] = true
 	}
 	b, err := dastard.VerifNewBench(nchan, c.Npre, c.Nsamp, float64(c.Rate), restored)
 	if err != nil {
@@ -179,7 +188,6 @@ func Run(c Case) lib.Result {
 	}
 	terms := make([][]string, nchan)
 	var impl [][]ChanObs
-	tags := map[string]bool{}
 	var facts Facts
 	ground := make([][]int, nchan)
 	signed := make([]bool, nchan)
